@@ -128,6 +128,21 @@ def gen_models(tier, seed, salt="c01", n_random=None, full_sizes=None):
                 k += 1
                 style = (STYLES + ("rot",))[k % 5]
                 yield _case(rng, names, edges, cards, style, modes[(k // 5 + k) % 3], "full" if n <= 3 else "sampled")
+    # "twin sensor" models: two (or three) children of one cause with IDENTICAL CPDs - observing them in the same state
+    # yields identical reduced factors, which set-based bookkeeping must still count once each
+    for t in range(4 if quick else 24):
+        k_twins = 2 + (t % 2)
+        names = ["cause"] + [f"sensor{i}" for i in range(k_twins)] + (["other"] if t % 3 == 0 else [])
+        edges = [["cause", f"sensor{i}"] for i in range(k_twins)] + ([["cause", "other"]] if t % 3 == 0 else [])
+        cards = {v: (2 if (t // 2) % 2 == 0 else 3) for v in names}
+        case = _case(rng, names, edges, cards, ("int", "str")[t % 2], "pos", "full")
+        spec = case["spec"]
+        for i in range(1, k_twins):
+            spec["cpd"][f"sensor{i}"] = {"parents": ["cause"], "table": [list(r) for r in spec["cpd"]["sensor0"]["table"]]}
+            spec["states"][f"sensor{i}"] = [str(x).replace("sensor0", f"sensor{i}") if isinstance(x, str) else x for x in spec["states"]["sensor0"]]
+        spec["cpd"]["sensor0"]["parents"] = ["cause"]
+        case["latents"] = []
+        yield case
     nr = n_random if n_random is not None else (24 if quick else 240)
     for i in range(nr):
         n = (4, 5, 5, 6)[i % 4] if quick else (5, 5, 6, 6)[i % 4]
